@@ -314,6 +314,34 @@ def run(args):
                     R.count("diag:error-class-differs"); continue
                 R.disagree("state-after-op", kind=kind, n=n, step=k, op=(ops[k - 1] if k > 0 else "<init>"), ops=ops[:k], impl=diff_summary(o, s)[0], model=diff_summary(o, s)[1])
                 break
+    # -------- histories with set_ncomp (outside the modelled alphabet; its table surgery is property C13): groups, recordings and the
+    #          consistency invariant after changing the discretisation of a branch of a module that already has groups / channels
+    for t in range({"quick": 4, "thorough": 40}[args.tier]):
+        comp = jx.Compartment()
+        nb = int(rng.integers(3, 6))
+        ncs = [int(rng.integers(2, 6)) for _ in range(nb)]
+        cell = jx.Cell([jx.Branch([comp] * k) for k in ncs], parents=[-1] + [int(rng.integers(0, i)) for i in range(1, nb)])
+        cell.insert(CHANS["HH"]())
+        members = {}
+        for g in ("ga", "gb"):
+            bs = sorted(rng.choice(nb, size=int(rng.integers(1, nb + 1)), replace=False).tolist())
+            cell.branch(bs).add_to_group(g); members[g] = bs
+        b = int(rng.integers(0, nb)); k = int(rng.integers(1, 7))
+        hdesc = dict(kind="cell", ncomp=ncs, groups=members, op=f"branch({b}).set_ncomp({k})")
+        try:
+            cell.branch(b).set_ncomp(k)
+        except Exception as ex:
+            R.spec_fail(dict(kind="set_ncomp-raises", err=type(ex).__name__), f"set_ncomp raises {type(ex).__name__}: {str(ex)[:120]}", hdesc, repr(ex)[:200]); continue
+        R.evaluations += 1; R.count("op:set_ncomp")
+        invariant(R, cell, hdesc)
+        bidx = cell.nodes["global_branch_index"].to_numpy()
+        for g, bs in members.items():
+            rows = sorted(int(x) for x in cell.groups[g])
+            want = [int(i) for i in range(len(bidx)) if int(bidx[i]) in bs]
+            if rows != want:
+                R.spec_fail(dict(kind="invariant", what="groups"), f"after {hdesc['op']} group {g} (branches {bs}) holds rows {rows}, its branches occupy rows {want}", hdesc, rows)
+        cell.select(nodes=[0]).record("v", verbose=False)
+        check_simulates_tables(R, drv, cell, hdesc, solver="bwd_euler", backend=["jaxley.stone", "jax.sparse"][t % 2])
     # -------- deletions undo insertions (implementation): insert c ; delete c restores the tables when c shares nothing
     for t in range({"quick": 10, "thorough": 100}[args.tier]):
         mod, kind = base_module(rng)
